@@ -144,6 +144,54 @@ func checkC17(rep *core.Report) {
 		}
 	}
 	fname := core.FuncName(F)
+	// the configuration file is located by looking at every command-line argument: a loop over os.Args comparing each
+	// with the constant "-config"; a second flag parser over os.Args stops at the first flag it does not know
+	{
+		scan, second := false, ""
+		for _, fn := range reach {
+			for _, l := range core.NaturalLoops(fn) {
+				overArgs, cmp := false, false
+				for b := range l.Blocks {
+					for _, ins := range b.Instrs {
+						switch x := ins.(type) {
+						case *ssa.UnOp:
+							if g, ok := x.X.(*ssa.Global); ok && g.Pkg != nil && g.Pkg.Pkg.Path() == "os" && g.Name() == "Args" {
+								overArgs = true
+							}
+						case *ssa.BinOp:
+							if x.Op == token.EQL || x.Op == token.NEQ {
+								for _, o := range []ssa.Value{x.X, x.Y} {
+									if c, ok := o.(*ssa.Const); ok && c.Value != nil && c.Value.ExactString() == `"-config"` {
+										cmp = true
+									}
+								}
+							}
+						}
+					}
+				}
+				// the slice ranged over may be loaded before the loop
+				if !overArgs {
+					allInstrs(fn, func(ins ssa.Instruction) {
+						if x, ok := ins.(*ssa.UnOp); ok {
+							if g, ok := x.X.(*ssa.Global); ok && g.Pkg != nil && g.Pkg.Pkg.Path() == "os" && g.Name() == "Args" {
+								overArgs = true
+							}
+						}
+					})
+				}
+				if overArgs && cmp {
+					scan = true
+				}
+			}
+			allInstrs(fn, func(ins ssa.Instruction) {
+				if c, ok := ins.(ssa.CallInstruction); ok && calleeName(c) == "(*flag.FlagSet).Parse" {
+					second = core.FuncName(fn) + " at " + prog.Pos(ins.Pos())
+				}
+			})
+		}
+		r1.Check(scan && second == "", fname+":config-located-among-all-arguments", F.Pos(), "every argument is compared with -config; no second flag parser",
+			fmt.Sprintf("the -config argument is not found by scanning every command-line argument (scan loop present=%v, second parser: %q): a flag parser over os.Args stops at the first flag it does not know, so -config after another flag is ignored and the file the operator named is never read", scan, second))
+	}
 	// no other source: between the defaults and flag.Parse nothing but the environment loader, the file loader and
 	// the flag package writes the options (a step that "fills in" or "normalises" values after the file was read
 	// overrides what the file or the environment said)
